@@ -133,4 +133,513 @@ theorem opp_facts (sf : Nat) (hsf : sf < 8) (cp umv sac ap aic df ss rps isd aiv
   · rcases w_cases aiv 32 with ⟨c, d⟩ | ⟨c, d⟩ <;> (rw [c]; simp only [decide_eq_true_eq, decide_eq_false_iff_not]; omega)
   · rcases w_cases mq 16 with ⟨c, d⟩ | ⟨c, d⟩ <;> (rw [c]; simp only [decide_eq_true_eq, decide_eq_false_iff_not]; omega)
 
+
+/-- the value of the 9 MPPTYPE bits -/
+def mppVal (pt : Nat) (rpr rru rtype : Bool) (tail : Nat) : Nat := pt * 64 + w rpr 32 + w rru 16 + w rtype 8 + tail
+
+theorem mpp_bits (pt : Nat) (hpt : pt < 8) (rpr rru rtype : Bool) (tail : Nat) (ht : tail < 8) :
+    ofBits (natBits 3 pt ++ ([rpr, rru, rtype] ++ natBits 3 tail)) = mppVal pt rpr rru rtype tail := by
+  rw [PeekLoop.ofBits_append, ofBits_natBits 3 pt (by omega)]
+  simp only [List.cons_append, List.nil_append, ofBits_cons', List.length_cons, natBits_length, ofBits_natBits 3 tail (by omega)]
+  unfold mppVal
+  simp only [Nat.reduceAdd, Nat.reducePow]
+  omega
+
+theorem mpp_facts (pt : Nat) (hpt : pt < 8) (rpr rru rtype : Bool) (tail : Nat) (ht : tail < 8) :
+    let V := mppVal pt rpr rru rtype tail
+    V < 2 ^ 9 ∧ V &&& 0x007 = tail ∧ (V &&& 0x1C0) >>> 6 = pt ∧ Header.bit V 0x020 = rpr ∧ Header.bit V 0x010 = rru ∧
+      Header.bit V 0x008 = rtype := by
+  intro V
+  have e3 : (0x007 : Nat) = 2 ^ 3 - 1 := rfl
+  have e6 : (0x1C0 : Nat) = (2 ^ 3 - 1) * 2 ^ 6 := rfl
+  have p5 : (0x020 : Nat) = 2 ^ 5 := rfl
+  have p4 : (0x010 : Nat) = 2 ^ 4 := rfl
+  have p3 : (0x008 : Nat) = 2 ^ 3 := rfl
+  rw [e3, e6, p5, p4, p3, and_low, and_shift]
+  simp only [bit_pow]
+  have hV : V = mppVal pt rpr rru rtype tail := rfl
+  unfold mppVal at hV
+  have b1 := w_le rpr 32; have b2 := w_le rru 16; have b3 := w_le rtype 8
+  refine ⟨by omega, ?_, ?_, ?_, ?_, ?_⟩
+  · rcases w_cases rpr 32 with ⟨c1, d1⟩ | ⟨c1, d1⟩ <;> rcases w_cases rru 16 with ⟨c2, d2⟩ | ⟨c2, d2⟩ <;>
+      rcases w_cases rtype 8 with ⟨c3, d3⟩ | ⟨c3, d3⟩ <;> omega
+  · rcases w_cases rpr 32 with ⟨c1, d1⟩ | ⟨c1, d1⟩ <;> rcases w_cases rru 16 with ⟨c2, d2⟩ | ⟨c2, d2⟩ <;>
+      rcases w_cases rtype 8 with ⟨c3, d3⟩ | ⟨c3, d3⟩ <;> omega
+  · rcases w_cases rpr 32 with ⟨c1, d1⟩ | ⟨c1, d1⟩ <;> rcases w_cases rru 16 with ⟨c2, d2⟩ | ⟨c2, d2⟩ <;>
+      rcases w_cases rtype 8 with ⟨c3, d3⟩ | ⟨c3, d3⟩ <;>
+      (rw [c1]; simp only [decide_eq_true_eq, decide_eq_false_iff_not]; omega)
+  · rcases w_cases rpr 32 with ⟨c1, d1⟩ | ⟨c1, d1⟩ <;> rcases w_cases rru 16 with ⟨c2, d2⟩ | ⟨c2, d2⟩ <;>
+      rcases w_cases rtype 8 with ⟨c3, d3⟩ | ⟨c3, d3⟩ <;>
+      (rw [c2]; simp only [decide_eq_true_eq, decide_eq_false_iff_not]; omega)
+  · rcases w_cases rpr 32 with ⟨c1, d1⟩ | ⟨c1, d1⟩ <;> rcases w_cases rru 16 with ⟨c2, d2⟩ | ⟨c2, d2⟩ <;>
+      rcases w_cases rtype 8 with ⟨c3, d3⟩ | ⟨c3, d3⟩ <;>
+      (rw [c3]; simp only [decide_eq_true_eq, decide_eq_false_iff_not]; omega)
+
+theorem or_pow (o k : Nat) (h : o < 2 ^ k) : o ||| 2 ^ k = o + 2 ^ k := by
+  have := Nat.two_pow_add_eq_or_of_lt h 1
+  rw [Nat.mul_one] at this
+  rw [Nat.or_comm, ← this, Nat.add_comm]
+
+theorem setIf_add (b : Bool) (k o : Nat) (h : o < 2 ^ k) : Header.setIf b (2 ^ k) o = o + flag b (2 ^ k) := by
+  unfold Header.setIf flag
+  cases b
+  · simp
+  · simp only [↓reduceIte]; exact or_pow o k h
+
+theorem flag_le (b : Bool) (k : Nat) : flag b k ≤ k := by cases b <;> simp [flag]
+
+/-- OPPTYPE mode flags: the parser's chain of OR-ed flags is the specification's sum of flags -/
+theorem opp_options_eq (umv sac ap aic df ss rps isd aiv mq : Bool) :
+    Header.setIf mq Opt.MODIFIED_QUANTIZATION (Header.setIf aiv Opt.ALTERNATIVE_INTER_VLC (Header.setIf isd Opt.INDEPENDENT_SEGMENT_DECODING
+      (Header.setIf rps Opt.REFERENCE_PICTURE_SELECTION (Header.setIf ss Opt.SLICE_STRUCTURED (Header.setIf df Opt.DEBLOCKING_FILTER
+      (Header.setIf aic Opt.ADVANCED_INTRA_CODING (Header.setIf ap Opt.ADVANCED_PREDICTION (Header.setIf sac Opt.SYNTAX_BASED_ARITHMETIC_CODING
+      (Header.setIf umv Opt.UNRESTRICTED_MOTION_VECTORS 0))))))))) =
+    flag umv Opt.UNRESTRICTED_MOTION_VECTORS + flag sac Opt.SYNTAX_BASED_ARITHMETIC_CODING + flag ap Opt.ADVANCED_PREDICTION +
+      flag aic Opt.ADVANCED_INTRA_CODING + flag df Opt.DEBLOCKING_FILTER + flag ss Opt.SLICE_STRUCTURED +
+      flag rps Opt.REFERENCE_PICTURE_SELECTION + flag isd Opt.INDEPENDENT_SEGMENT_DECODING + flag aiv Opt.ALTERNATIVE_INTER_VLC +
+      flag mq Opt.MODIFIED_QUANTIZATION ∧
+    flag umv Opt.UNRESTRICTED_MOTION_VECTORS + flag sac Opt.SYNTAX_BASED_ARITHMETIC_CODING + flag ap Opt.ADVANCED_PREDICTION +
+      flag aic Opt.ADVANCED_INTRA_CODING + flag df Opt.DEBLOCKING_FILTER + flag ss Opt.SLICE_STRUCTURED +
+      flag rps Opt.REFERENCE_PICTURE_SELECTION + flag isd Opt.INDEPENDENT_SEGMENT_DECODING + flag aiv Opt.ALTERNATIVE_INTER_VLC +
+      flag mq Opt.MODIFIED_QUANTIZATION < 0x2000 := by
+  have e3 : Opt.UNRESTRICTED_MOTION_VECTORS = 2 ^ 3 := rfl
+  have e4 : Opt.SYNTAX_BASED_ARITHMETIC_CODING = 2 ^ 4 := rfl
+  have e5 : Opt.ADVANCED_PREDICTION = 2 ^ 5 := rfl
+  have e6 : Opt.ADVANCED_INTRA_CODING = 2 ^ 6 := rfl
+  have e7 : Opt.DEBLOCKING_FILTER = 2 ^ 7 := rfl
+  have e8 : Opt.SLICE_STRUCTURED = 2 ^ 8 := rfl
+  have e9 : Opt.REFERENCE_PICTURE_SELECTION = 2 ^ 9 := rfl
+  have e10 : Opt.INDEPENDENT_SEGMENT_DECODING = 2 ^ 10 := rfl
+  have e11 : Opt.ALTERNATIVE_INTER_VLC = 2 ^ 11 := rfl
+  have e12 : Opt.MODIFIED_QUANTIZATION = 2 ^ 12 := rfl
+  rw [e3, e4, e5, e6, e7, e8, e9, e10, e11, e12]
+  have f3 := flag_le umv (2 ^ 3); have f4 := flag_le sac (2 ^ 4); have f5 := flag_le ap (2 ^ 5); have f6 := flag_le aic (2 ^ 6)
+  have f7 := flag_le df (2 ^ 7); have f8 := flag_le ss (2 ^ 8); have f9 := flag_le rps (2 ^ 9); have f10 := flag_le isd (2 ^ 10)
+  have f11 := flag_le aiv (2 ^ 11); have f12 := flag_le mq (2 ^ 12)
+  rw [setIf_add umv 3 0 (by omega), setIf_add sac 4 _ (by omega), setIf_add ap 5 _ (by omega), setIf_add aic 6 _ (by omega),
+    setIf_add df 7 _ (by omega), setIf_add ss 8 _ (by omega), setIf_add rps 9 _ (by omega), setIf_add isd 10 _ (by omega),
+    setIf_add aiv 11 _ (by omega), setIf_add mq 12 _ (by omega)]
+  exact ⟨by omega, by omega⟩
+
+/-- MPPTYPE mode flags on top of any OPPTYPE-class option set -/
+theorem mpp_options_eq (o : Nat) (ho : o < 0x2000) (rpr rru rtype : Bool) :
+    Header.setIf rtype Opt.ROUNDING_TYPE_ONE (Header.setIf rru Opt.REDUCED_RESOLUTION_UPDATE (Header.setIf rpr Opt.REFERENCE_PICTURE_RESAMPLING o)) =
+      o + flag rpr Opt.REFERENCE_PICTURE_RESAMPLING + flag rru Opt.REDUCED_RESOLUTION_UPDATE + flag rtype Opt.ROUNDING_TYPE_ONE := by
+  have e13 : Opt.REFERENCE_PICTURE_RESAMPLING = 2 ^ 13 := by simp [Opt.REFERENCE_PICTURE_RESAMPLING]
+  have e14 : Opt.REDUCED_RESOLUTION_UPDATE = 2 ^ 14 := by simp [Opt.REDUCED_RESOLUTION_UPDATE]
+  have e15 : Opt.ROUNDING_TYPE_ONE = 2 ^ 15 := by simp [Opt.ROUNDING_TYPE_ONE]
+  rw [e13, e14, e15]
+  have f13 := flag_le rpr (2 ^ 13); have f14 := flag_le rru (2 ^ 14)
+  rw [setIf_add rpr 13 o (by omega), setIf_add rru 14 _ (by omega), setIf_add rtype 15 _ (by omega)]
+
+
+/-! ### PLUSPTYPE -/
+
+def oppBits (h : PlusHdr) : Bits :=
+  natBits 3 h.srcFmt ++ ([h.customPcf, h.umv, h.sac, h.ap, h.aic, h.df, h.ss, h.rps, h.isd, h.aiv, h.mq] ++ natBits 4 8)
+
+def mppBits (h : PlusHdr) : Bits := natBits 3 h.picType ++ ([h.rpr, h.rru, h.rtype] ++ natBits 3 1)
+
+def plusFmt (sf : Nat) : Option SrcFmt :=
+  match sf with
+  | 0 => some .reserved | 1 => some .subQcif | 2 => some .quarterCif | 3 => some .fullCif | 4 => some .fourCif
+  | 5 => some .sixteenCif | 6 => none | _ => some .reserved
+
+def plusType (pt : Nat) : PicType :=
+  match pt with
+  | 0 => .iFrame | 1 => .pFrame | 2 => .improvedPb | 3 => .bFrame | 4 => .eiFrame | 5 => .epFrame | r => .reserved r
+
+def plusFol (d : DecOpts) (h : PlusHdr) : Header.Followers :=
+  if h.ufep then { customFormat := h.srcFmt == 6, customClock := h.customPcf, mvRange := h.umv, sliceSubmode := h.ss,
+                   rpsMode := h.rps, refLayer := d.scalability } else {}
+
+def plusExtra (prevOptions : Nat) (h : PlusHdr) : Nat :=
+  (if h.ufep then oppOptions h else prevOptions &&& Opt.OPPTYPE_OPTIONS) + flag h.rpr Opt.REFERENCE_PICTURE_RESAMPLING +
+    flag h.rru Opt.REDUCED_RESOLUTION_UPDATE + flag h.rtype Opt.ROUNDING_TYPE_ONE
+
+def plusptypeBits (h : PlusHdr) : Bits := (if h.ufep then natBits 3 1 ++ oppBits h else natBits 3 0) ++ mppBits h
+
+theorem oppBits_length (h : PlusHdr) : (oppBits h).length = 18 := by simp [oppBits, natBits_length]
+theorem mppBits_length (h : PlusHdr) : (mppBits h).length = 9 := by simp [mppBits, natBits_length]
+
+/-- `decode_plusptype`: UFEP, the 18 OPPTYPE bits when present (source format, the ten mode flags, custom PCF, the fixed
+tail 1000), the 9 MPPTYPE bits (picture type, RPR / RRU / RTYPE, the fixed tail 001); with UFEP = 000 the OPPTYPE-class modes are
+those of the previous header -/
+theorem plusptype_round_trip (d : DecOpts) (prevOptions : Nat) (h : PlusHdr) (hsf : h.srcFmt < 8) (hpt : h.picType < 8)
+    (rest : Bits) (pos : Nat) :
+    Header.decodePlusptype d prevOptions ⟨plusptypeBits h ++ rest, pos⟩ =
+      .ok ((plusExtra prevOptions h, (if h.ufep then plusFmt h.srcFmt else none), plusType h.picType, plusFol d h, h.ufep),
+           ⟨rest, pos + (plusptypeBits h).length⟩) := by
+  obtain ⟨m0, m1, m2, m3, m4, m5⟩ := mpp_facts h.picType hpt h.rpr h.rru h.rtype 1 (by omega)
+  have hmpp := fun (r : Bits) (p : Nat) => readBits_list 16 9 (mppBits h) (mppBits_length h) (by omega) r p
+  have hmv : ofBits (mppBits h) = mppVal h.picType h.rpr h.rru h.rtype 1 := mpp_bits h.picType hpt h.rpr h.rru h.rtype 1 (by omega)
+  unfold Header.decodePlusptype plusptypeBits plusExtra plusFol
+  cases hu : h.ufep with
+  | false =>
+    simp only [Bool.false_eq_true, ↓reduceIte, List.append_assoc, bind_apply]
+    rw [readBits_natBits 8 3 0 (by omega) (by omega)]
+    have hge : ¬ ((0 : Nat) ≥ 2) := by omega
+    have h01 : ((0 : Nat) == 1) = false := rfl
+    simp only [hge, ↓reduceIte, h01, Bool.false_eq_true, pure_apply, bind_apply]
+    rw [hmpp, hmv]
+    simp only [m1, bne_self_eq_false, Bool.false_eq_true, ↓reduceIte, pure_apply, m2, m3, m4, m5]
+    have hlt : prevOptions &&& Opt.OPPTYPE_OPTIONS < 0x2000 := by
+      have := Nat.and_le_right (n := prevOptions) (m := Opt.OPPTYPE_OPTIONS)
+      have e : Opt.OPPTYPE_OPTIONS = 0x1FF8 := by decide
+      omega
+    rw [mpp_options_eq _ hlt]
+    simp [plusType, natBits_length, mppBits_length, Nat.add_assoc]
+    rcases (show h.picType = 0 ∨ h.picType = 1 ∨ h.picType = 2 ∨ h.picType = 3 ∨ h.picType = 4 ∨ h.picType = 5 ∨ h.picType = 6 ∨ h.picType = 7 by omega) with e | e | e | e | e | e | e | e <;> simp [e]
+  | true =>
+    obtain ⟨o0, o1, o2, o3, o4, o5, o6, o7, o8, o9, o10, o11, o12, o13⟩ :=
+      opp_facts h.srcFmt hsf h.customPcf h.umv h.sac h.ap h.aic h.df h.ss h.rps h.isd h.aiv h.mq 8 (by omega)
+    have hopp := fun (r : Bits) (p : Nat) => readBits_list 32 18 (oppBits h) (oppBits_length h) (by omega) r p
+    have hov : ofBits (oppBits h) = oppVal h.srcFmt h.customPcf h.umv h.sac h.ap h.aic h.df h.ss h.rps h.isd h.aiv h.mq 8 :=
+      opp_bits h.srcFmt hsf _ _ _ _ _ _ _ _ _ _ _ 8 (by omega)
+    simp only [↓reduceIte, List.append_assoc, bind_apply]
+    rw [readBits_natBits 8 3 1 (by omega) (by omega)]
+    have hge : ¬ ((1 : Nat) ≥ 2) := by omega
+    have h11 : ((1 : Nat) == 1) = true := rfl
+    simp only [hge, ↓reduceIte, h11, bind_apply]
+    rw [hopp, hov]
+    simp only [o1, bne_self_eq_false, Bool.false_eq_true, ↓reduceIte, pure_apply, o2, o3, o4, o5, o6, o7, o8, o9, o10, o11, o12, o13]
+    rw [hmpp, hmv]
+    simp only [m1, bne_self_eq_false, Bool.false_eq_true, ↓reduceIte, pure_apply, m2, m3, m4, m5]
+    obtain ⟨q1, q2⟩ := opp_options_eq h.umv h.sac h.ap h.aic h.df h.ss h.rps h.isd h.aiv h.mq
+    rw [q1, mpp_options_eq _ q2]
+    simp [plusType, plusFmt, oppOptions, natBits_length, mppBits_length, oppBits_length, Nat.add_assoc]
+    refine ⟨?_, ?_⟩
+    · rcases (show h.srcFmt = 0 ∨ h.srcFmt = 1 ∨ h.srcFmt = 2 ∨ h.srcFmt = 3 ∨ h.srcFmt = 4 ∨ h.srcFmt = 5 ∨ h.srcFmt = 6 ∨ h.srcFmt = 7 by omega) with e | e | e | e | e | e | e | e <;> simp [e]
+    · rcases (show h.picType = 0 ∨ h.picType = 1 ∨ h.picType = 2 ∨ h.picType = 3 ∨ h.picType = 4 ∨ h.picType = 5 ∨ h.picType = 6 ∨ h.picType = 7 by omega) with e | e | e | e | e | e | e | e <;> simp [e]
+
+
+/-! ### the optional fields -/
+
+/-- a section that is present iff `b`: parsed value `some v`, or the default when absent -/
+theorem opt_section {α : Type} (p : P α) (bits : Bits) (v : α)
+    (b : Bool) (hp : b = true → ∀ r q, p ⟨bits ++ r, q⟩ = .ok (v, ⟨r, q + bits.length⟩)) (dflt : Option α) (rest : Bits) (pos : Nat) :
+    (if b = true then (p >>= fun x => pure (some x)) else pure dflt : P (Option α)) ⟨(if b = true then bits else []) ++ rest, pos⟩ =
+      .ok ((if b = true then some v else dflt), ⟨rest, pos + (if b = true then bits else []).length⟩) := by
+  cases b
+  · simp
+  · simp only [↓reduceIte, bind_apply, hp rfl, pure_apply]
+
+/-- CPFMT: pixel aspect ratio code (4), picture width indication (9), marker 1, picture height indication (9), EPAR (8 + 8) -/
+def cpfmtBits (h : PlusHdr) : Bits :=
+  natBits 4 h.par ++ (natBits 9 h.pwi ++ ([true] ++ natBits 9 h.phi)) ++ (if h.par = 15 then natBits 8 h.eparW ++ natBits 8 h.eparH else [])
+
+structure CpfmtValid (h : PlusHdr) : Prop where
+  par : 1 ≤ h.par ∧ h.par < 16
+  pwi : h.pwi < 512
+  phi : h.phi < 512
+  epar : h.par = 15 → (1 ≤ h.eparW ∧ h.eparW < 256 ∧ 1 ≤ h.eparH ∧ h.eparH < 256)
+
+theorem cpfmt_round_trip (h : PlusHdr) (hv : CpfmtValid h) (rest : Bits) (pos : Nat) :
+    Header.decodeCpfmt ⟨cpfmtBits h ++ rest, pos⟩ =
+      .ok (.extended (parOf h) ((h.pwi + 1) * 4) (h.phi * 4), ⟨rest, pos + (cpfmtBits h).length⟩) := by
+  obtain ⟨⟨p1, p2⟩, hw, hh, he⟩ := hv
+  unfold Header.decodeCpfmt cpfmtBits
+  have hlen : (natBits 4 h.par ++ (natBits 9 h.pwi ++ ([true] ++ natBits 9 h.phi))).length = 23 := by simp [natBits_length]
+  have hval : ofBits (natBits 4 h.par ++ (natBits 9 h.pwi ++ ([true] ++ natBits 9 h.phi))) = h.par * 2 ^ 19 + h.pwi * 2 ^ 10 + 2 ^ 9 + h.phi := by
+    rw [PeekLoop.ofBits_append, PeekLoop.ofBits_append, ofBits_natBits 4 _ (by omega), ofBits_natBits 9 _ (by omega)]
+    simp only [List.cons_append, List.nil_append, ofBits_cons', List.length_cons, natBits_length, List.length_append,
+      ofBits_natBits 9 h.phi (by omega), w, ↓reduceIte, Nat.reduceAdd, Nat.reducePow]
+    omega
+  simp only [List.append_assoc, bind_apply]
+  have hrd := readBits_list 32 23 _ hlen (by omega)
+    ((if h.par = 15 then natBits 8 h.eparW ++ natBits 8 h.eparH else []) ++ rest) pos
+  simp only [List.append_assoc] at hrd
+  rw [hrd, hval]
+  generalize hV : h.par * 2 ^ 19 + h.pwi * 2 ^ 10 + 2 ^ 9 + h.phi = V
+  have hne : (V &&& 0x000200 == 0) = false := by
+    have hb : Header.bit V (2 ^ 9) = true := by rw [bit_pow]; simp only [decide_eq_true_eq]; omega
+    unfold Header.bit at hb
+    have e : (0x000200 : Nat) = 2 ^ 9 := rfl
+    rw [e]
+    simpa [bne] using hb
+  have mpar : (V &&& 0x780000) >>> 19 = h.par := by
+    have e : (0x780000 : Nat) = (2 ^ 4 - 1) * 2 ^ 19 := rfl
+    rw [e, and_shift]; omega
+  have mw : (V &&& 0x07FC00) >>> 10 = h.pwi := by
+    have e : (0x07FC00 : Nat) = (2 ^ 9 - 1) * 2 ^ 10 := rfl
+    rw [e, and_shift]; omega
+  have mh : V &&& 0x0001FF = h.phi := by
+    have e : (0x0001FF : Nat) = 2 ^ 9 - 1 := rfl
+    rw [e, and_low]; omega
+  simp only [hne, Bool.false_eq_true, ↓reduceIte, mpar, mw, mh, bind_apply]
+  have hpar : h.par = 1 ∨ h.par = 2 ∨ h.par = 3 ∨ h.par = 4 ∨ h.par = 5 ∨ h.par = 15 ∨ (6 ≤ h.par ∧ h.par ≤ 14) := by omega
+  rcases hpar with e | e | e | e | e | e | e
+  · simp [e, parOf, natBits_length]
+  · simp [e, parOf, natBits_length]
+  · simp [e, parOf, natBits_length]
+  · simp [e, parOf, natBits_length]
+  · simp [e, parOf, natBits_length]
+  · obtain ⟨a1, a2, a3, a4⟩ := he e
+    simp only [e, ↓reduceIte, List.append_assoc, bind_apply, readU8]
+    rw [readBits_natBits 8 8 h.eparW (by omega) (by omega)]
+    simp only
+    rw [readBits_natBits 8 8 h.eparH (by omega) (by omega)]
+    have z1 : (h.eparW == 0) = false := by simp; omega
+    have z2 : (h.eparH == 0) = false := by simp; omega
+    simp [z1, z2, parOf, e, natBits_length, Nat.add_assoc]
+  · have : ∃ r, h.par = r + 6 ∧ r ≤ 8 := ⟨h.par - 6, by omega, by omega⟩
+    obtain ⟨r, hr, hr8⟩ := this
+    have hr' : r = 0 ∨ r = 1 ∨ r = 2 ∨ r = 3 ∨ r = 4 ∨ r = 5 ∨ r = 6 ∨ r = 7 ∨ r = 8 := by omega
+    rcases hr' with q | q | q | q | q | q | q | q | q <;> subst q <;> simp [hr, parOf, natBits_length]
+
+
+theorem cpcfc_round_trip (v : Nat) (hv : v < 256) (rest : Bits) (pos : Nat) :
+    Header.decodeCpcfc ⟨natBits 8 v ++ rest, pos⟩ = .ok ((Header.bit v 0x80, v &&& 0x7F), ⟨rest, pos + 8⟩) := by
+  unfold Header.decodeCpcfc
+  simp only [bind_apply, readU8]
+  rw [readBits_natBits 8 8 v (by omega) (by omega)]
+  rfl
+
+def uuiBits (unlimited : Bool) : Bits := if unlimited then [false, true] else [true]
+
+theorem uui_round_trip (u : Bool) (rest : Bits) (pos : Nat) :
+    Header.decodeUui ⟨uuiBits u ++ rest, pos⟩ = .ok ((if u then MvRange.unlimited else .extended), ⟨rest, pos + (uuiBits u).length⟩) := by
+  unfold Header.decodeUui uuiBits
+  cases u
+  · simp only [Bool.false_eq_true, ↓reduceIte, List.cons_append, List.nil_append, bind_apply]
+    rw [readBits_one 8 (by omega)]
+    simp
+  · simp only [↓reduceIte, List.cons_append, List.nil_append, bind_apply]
+    rw [readBits_one 8 (by omega)]
+    simp only [Bool.false_eq_true, ↓reduceIte, bind_apply]
+    have h01 : ((0 : Nat) == 1) = false := rfl
+    simp only [h01, Bool.false_eq_true, ↓reduceIte, bind_apply]
+    rw [readBits_one 8 (by omega)]
+    simp
+
+theorem sss_round_trip (r a : Bool) (rest : Bits) (pos : Nat) :
+    Header.decodeSss ⟨[r, a] ++ rest, pos⟩ = .ok (flag r 1 + flag a 2, ⟨rest, pos + 2⟩) := by
+  unfold Header.decodeSss
+  simp only [bind_apply]
+  have := readBits_list 8 2 [r, a] rfl (by omega) rest pos
+  rw [this]
+  cases r <;> cases a <;> rfl
+
+theorem elnum_round_trip (fol : Header.Followers) (e r : Nat) (he : e < 16) (hr : r < 16) (rest : Bits) (pos : Nat) :
+    Header.decodeElnumRlnum fol ⟨natBits 4 e ++ ((if fol.refLayer = true then natBits 4 r else []) ++ rest), pos⟩ =
+      .ok ((e, if fol.refLayer = true then some r else none), ⟨rest, pos + 4 + (if fol.refLayer = true then 4 else 0)⟩) := by
+  unfold Header.decodeElnumRlnum
+  simp only [bind_apply]
+  rw [readBits_natBits 8 4 e (by omega) (by omega)]
+  cases fol.refLayer
+  · simp
+  · simp only [↓reduceIte, bind_apply]
+    rw [readBits_natBits 8 4 r (by omega) (by omega)]
+    simp
+
+theorem rpsmf_round_trip (v : Nat) (hv : v < 8) (rest : Bits) (pos : Nat) :
+    Header.decodeRpsmf ⟨natBits 3 v ++ rest, pos⟩ =
+      .ok (flag (v / 4 % 2 = 0) 1 + flag (v / 2 % 2 = 1) 2 + flag (v % 2 = 1) 4, ⟨rest, pos + 3⟩) := by
+  unfold Header.decodeRpsmf
+  simp only [bind_apply]
+  rw [readBits_natBits 8 3 v (by omega) (by omega)]
+  have : v = 0 ∨ v = 1 ∨ v = 2 ∨ v = 3 ∨ v = 4 ∨ v = 5 ∨ v = 6 ∨ v = 7 := by omega
+  rcases this with e | e | e | e | e | e | e | e <;> subst e <;> rfl
+
+def trpBits (t : Option Nat) : Bits := match t with | some v => [true] ++ natBits 10 v | none => [false]
+
+theorem trpi_round_trip (t : Option Nat) (ht : ∀ v, t = some v → v < 1024) (rest : Bits) (pos : Nat) :
+    Header.decodeTrpi ⟨trpBits t ++ rest, pos⟩ = .ok (t, ⟨rest, pos + (trpBits t).length⟩) := by
+  unfold Header.decodeTrpi trpBits
+  cases t with
+  | none =>
+    simp only [List.cons_append, List.nil_append, bind_apply]
+    rw [readBits_one 8 (by omega)]
+    simp
+  | some v =>
+    simp only [List.cons_append, List.nil_append, bind_apply]
+    rw [readBits_one 8 (by omega)]
+    have h11 : ((1 : Nat) == 1) = true := rfl
+    simp only [↓reduceIte, h11, bind_apply]
+    rw [readBits_natBits 16 10 v (by omega) (by have := ht v rfl; omega)]
+    simp [natBits_length, Nat.add_assoc]
+
+theorem bcm_round_trip (rest : Bits) (pos : Nat) : Header.decodeBcm ⟨[false, true] ++ rest, pos⟩ = .ok ((), ⟨rest, pos + 2⟩) := by
+  unfold Header.decodeBcm
+  simp only [List.cons_append, List.nil_append, bind_apply]
+  rw [readBits_one 8 (by omega)]
+  have h01 : ((0 : Nat) == 1) = false := rfl
+  simp only [Bool.false_eq_true, ↓reduceIte, h01, bind_apply]
+  rw [readBits_one 8 (by omega)]
+  simp
+
+theorem trb_round_trip (cc : Bool) (v : Nat) (hv : v < (if cc then 32 else 8)) (rest : Bits) (pos : Nat) :
+    Header.decodeTrb cc ⟨natBits (if cc then 5 else 3) v ++ rest, pos⟩ = .ok (v, ⟨rest, pos + (if cc then 5 else 3)⟩) := by
+  unfold Header.decodeTrb
+  cases cc
+  · simp only [Bool.false_eq_true, ↓reduceIte] at hv ⊢
+    exact readBits_natBits 8 3 v (by omega) (by omega) rest pos
+  · simp only [↓reduceIte] at hv ⊢
+    exact readBits_natBits 8 5 v (by omega) (by omega) rest pos
+
+theorem etr_combine (hi lo : Nat) (hlo : lo < 256) : (hi <<< 8) ||| lo = hi * 256 + lo := by
+  rw [Nat.shiftLeft_eq]
+  exact PeekLoop.lor_add hi 8 lo (by omega)
+
+
+/-! ### option-set arithmetic -/
+
+theorem and_pow (v k : Nat) : v &&& 2 ^ k = if v.testBit k then 2 ^ k else 0 := by
+  apply Nat.eq_of_testBit_eq
+  intro j
+  rw [Nat.testBit_and, Nat.testBit_two_pow]
+  by_cases hj : k = j
+  · subst hj
+    cases hv : v.testBit k <;> simp [hv, Nat.testBit_two_pow_self]
+  · cases hv : v.testBit k <;> simp [hj, Nat.testBit_two_pow_of_ne hj]
+
+theorem has_pow (x k : Nat) : Opt.has x (2 ^ k) = decide (x / 2 ^ k % 2 = 1) := by
+  unfold Opt.has
+  rw [and_pow, ← Nat.testBit_eq_decide_div_mod_eq]
+  cases x.testBit k
+  · simp; exact Nat.ne_of_lt (Nat.two_pow_pos k)
+  · simp
+
+theorem flag_mul (b : Bool) (F k : Nat) (hF : F = 1024 * k) : ∃ e, flag b F = 1024 * e := by
+  cases b
+  · exact ⟨0, by simp [flag]⟩
+  · exact ⟨k, by simp [flag, hF]⟩
+
+theorem flag_mod8 (b : Bool) (F : Nat) (hF : F % 8 = 0) : flag b F % 8 = 0 := by cases b <;> simp [flag, hF]
+
+theorem oppOptions_facts (h : PlusHdr) : oppOptions h % 8 = 0 ∧ oppOptions h < 0x2000 ∧
+    (Opt.has (oppOptions h) Opt.REFERENCE_PICTURE_SELECTION = h.rps) := by
+  obtain ⟨_, q2⟩ := opp_options_eq h.umv h.sac h.ap h.aic h.df h.ss h.rps h.isd h.aiv h.mq
+  have e9 : Opt.REFERENCE_PICTURE_SELECTION = 2 ^ 9 := rfl
+  refine ⟨?_, q2, ?_⟩
+  · unfold oppOptions
+    have m1 := flag_mod8 h.umv Opt.UNRESTRICTED_MOTION_VECTORS rfl
+    have m2 := flag_mod8 h.sac Opt.SYNTAX_BASED_ARITHMETIC_CODING rfl
+    have m3 := flag_mod8 h.ap Opt.ADVANCED_PREDICTION rfl
+    have m4 := flag_mod8 h.aic Opt.ADVANCED_INTRA_CODING rfl
+    have m5 := flag_mod8 h.df Opt.DEBLOCKING_FILTER rfl
+    have m6 := flag_mod8 h.ss Opt.SLICE_STRUCTURED rfl
+    have m7 := flag_mod8 h.rps Opt.REFERENCE_PICTURE_SELECTION rfl
+    have m8 := flag_mod8 h.isd Opt.INDEPENDENT_SEGMENT_DECODING rfl
+    have m9 := flag_mod8 h.aiv Opt.ALTERNATIVE_INTER_VLC rfl
+    have m10 := flag_mod8 h.mq Opt.MODIFIED_QUANTIZATION rfl
+    omega
+  · rw [e9, has_pow]
+    unfold oppOptions
+    have f1 := flag_le h.umv Opt.UNRESTRICTED_MOTION_VECTORS
+    have f2 := flag_le h.sac Opt.SYNTAX_BASED_ARITHMETIC_CODING
+    have f3 := flag_le h.ap Opt.ADVANCED_PREDICTION
+    have f4 := flag_le h.aic Opt.ADVANCED_INTRA_CODING
+    have f5 := flag_le h.df Opt.DEBLOCKING_FILTER
+    have f6 := flag_le h.ss Opt.SLICE_STRUCTURED
+    have g8 := flag_mul h.isd Opt.INDEPENDENT_SEGMENT_DECODING 1 rfl
+    have g9 := flag_mul h.aiv Opt.ALTERNATIVE_INTER_VLC 2 rfl
+    have g10 := flag_mul h.mq Opt.MODIFIED_QUANTIZATION 4 rfl
+    obtain ⟨e8, h8⟩ := g8; obtain ⟨e9', h9⟩ := g9; obtain ⟨e10, h10⟩ := g10
+    rw [h8, h9, h10]
+    have n1 : Opt.UNRESTRICTED_MOTION_VECTORS = 8 := rfl
+    have n2 : Opt.SYNTAX_BASED_ARITHMETIC_CODING = 16 := rfl
+    have n3 : Opt.ADVANCED_PREDICTION = 32 := rfl
+    have n4 : Opt.ADVANCED_INTRA_CODING = 64 := rfl
+    have n5 : Opt.DEBLOCKING_FILTER = 128 := rfl
+    have n6 : Opt.SLICE_STRUCTURED = 256 := rfl
+    have n7 : Opt.REFERENCE_PICTURE_SELECTION = 512 := rfl
+    have hrps : flag h.rps Opt.REFERENCE_PICTURE_SELECTION = if h.rps then 512 else 0 := by cases h.rps <;> rfl
+    rw [hrps]
+    cases hr : h.rps <;> simp only [Bool.false_eq_true, ↓reduceIte, decide_eq_true_eq, decide_eq_false_iff_not] <;> omega
+
+
+/-! ### the whole PLUSPTYPE header -/
+
+theorem high_facts7 : ∀ a b c : Bool,
+    let v := 128 + (if a then 32 else 0) + (if b then 16 else 0) + (if c then 8 else 0) + 7
+    v < 256 ∧ (v &&& 0xC0 != 0x80) = false ∧ Header.bit v 0x20 = a ∧ Header.bit v 0x10 = b ∧ Header.bit v 0x08 = c ∧ v &&& 0x07 = 7 := by
+  decide
+
+def ptypeHigh7 (h : PlusHdr) : Nat :=
+  128 + (if h.split then 32 else 0) + (if h.docCamera then 16 else 0) + (if h.freezeRelease then 8 else 0) + 7
+
+theorem ptypeHigh7_bits (h : PlusHdr) :
+    [true, false, h.split, h.docCamera, h.freezeRelease] ++ natBits 3 7 = natBits 8 (ptypeHigh7 h) := by
+  unfold ptypeHigh7
+  cases h.split <;> cases h.docCamera <;> cases h.freezeRelease <;> rfl
+
+def o3 (h : PlusHdr) : Nat :=
+  flag h.split Opt.USE_SPLIT_SCREEN + flag h.docCamera Opt.USE_DOCUMENT_CAMERA + flag h.freezeRelease Opt.RELEASE_FULL_PICTURE_FREEZE
+
+theorem o3_eq : ∀ a b c : Bool,
+    Header.setIf c Opt.RELEASE_FULL_PICTURE_FREEZE (Header.setIf b Opt.USE_DOCUMENT_CAMERA (Header.setIf a Opt.USE_SPLIT_SCREEN 0)) =
+      flag a Opt.USE_SPLIT_SCREEN + flag b Opt.USE_DOCUMENT_CAMERA + flag c Opt.RELEASE_FULL_PICTURE_FREEZE ∧
+    flag a Opt.USE_SPLIT_SCREEN + flag b Opt.USE_DOCUMENT_CAMERA + flag c Opt.RELEASE_FULL_PICTURE_FREEZE < 8 := by decide
+
+/-- `decode_ptype` when the source format field says "extended PTYPE" (111): only the three flag bits are reported -/
+theorem decodePtype_plus (h : PlusHdr) (rest : Bits) (pos : Nat) :
+    Header.decodePtype ⟨natBits 8 (ptypeHigh7 h) ++ rest, pos⟩ = .ok ((o3 h, none), ⟨rest, pos + 8⟩) := by
+  obtain ⟨hlt, hmark, b1, b2, b3, hfm⟩ := high_facts7 h.split h.docCamera h.freezeRelease
+  unfold Header.decodePtype
+  simp only [bind_apply, readU8]
+  rw [readBits_natBits 8 8 (ptypeHigh7 h) (by omega) (by unfold ptypeHigh7; exact hlt)]
+  simp only
+  unfold ptypeHigh7
+  rw [hmark]
+  simp only [Bool.false_eq_true, ↓reduceIte, b1, b2, b3, hfm, pure_apply]
+  rw [(o3_eq h.split h.docCamera h.freezeRelease).1]
+  rfl
+
+/-- a low part below 8 OR-ed with a multiple of 8 is their sum -/
+theorem or_low8 (a b : Nat) (ha : a < 8) (hb : b % 8 = 0) : a ||| b = a + b := by
+  have : b = (b / 8) * 2 ^ 3 := by omega
+  rw [this, Nat.or_comm, PeekLoop.lor_add _ 3 a (by omega)]
+  omega
+
+theorem and_opp_mod8 (x : Nat) : (x &&& Opt.OPPTYPE_OPTIONS) % 8 = 0 ∧ x &&& Opt.OPPTYPE_OPTIONS < 0x2000 := by
+  constructor
+  · have e : (8 : Nat) = 2 ^ 3 := rfl
+    rw [e, ← Nat.and_two_pow_sub_one_eq_mod, Nat.and_assoc]
+    have : Opt.OPPTYPE_OPTIONS &&& (2 ^ 3 - 1) = 0 := by decide
+    rw [this, Nat.and_zero]
+  · have := Nat.and_le_right (n := x) (m := Opt.OPPTYPE_OPTIONS)
+    have e : Opt.OPPTYPE_OPTIONS = 0x1FF8 := by decide
+    omega
+
+
+abbrev prevOpts (prev : Option PicHdr) : Nat := Header.prevOptions prev
+
+/-- the OPPTYPE-class option set in force for this header: its own, or the previous header's when UFEP = 000 -/
+def oppInForce (prev : Option PicHdr) (h : PlusHdr) : Nat :=
+  if h.ufep then oppOptions h else prevOpts prev &&& Opt.OPPTYPE_OPTIONS
+
+structure Valid (scal : Bool) (prev : Option PicHdr) (h : PlusHdr) : Prop where
+  tr : h.tr < 256
+  sf : h.srcFmt < 8
+  pt : h.picType < 8
+  markers : h.ufepCode = none ∧ h.oppTail = 8 ∧ h.mppTail = 1 ∧ h.cpfmtMarker = true ∧ h.uuiBad = false ∧ h.bciBad = false
+  norpr : h.rpr = false
+  cpm : ∀ p, h.cpm = some p → p < 4
+  cpfmt : h.ufep = true → h.srcFmt = 6 → CpfmtValid h
+  clock : h.cpcfc < 256 ∧ h.etr < 4
+  layers : h.elnum < 16 ∧ h.rlnum < 16
+  rpsmf : h.rpsmf < 8
+  trp : ∀ v, h.trp = some v → v < 1024
+  q : h.quant < 32
+  trb : h.trb < (if h.ufep && h.customPcf then 32 else 8)
+  dbq : h.dbquant < 4
+  extra : ∀ b ∈ h.extra, b < 256
+  prevfmt : Header.formatChanged prev (plusPicture scal (prevOpts prev) h).format = false
+
+theorem has_rps_total (h3 opp m : Nat) (h3lt : h3 < 8) (hopp8 : opp % 8 = 0) (hopplt : opp < 0x2000) (hm : m % 0x2000 = 0) :
+    Opt.has (h3 + (opp + m)) Opt.REFERENCE_PICTURE_SELECTION = Opt.has opp Opt.REFERENCE_PICTURE_SELECTION := by
+  have e9 : Opt.REFERENCE_PICTURE_SELECTION = 2 ^ 9 := rfl
+  rw [e9, has_pow, has_pow]
+  congr 1
+  apply propext
+  constructor <;> intro hh <;> omega
+
+theorem has_rpr_total (h3 opp m : Nat) (h3lt : h3 < 8) (hopp8 : opp % 8 = 0) (hopplt : opp < 0x2000) (hm : m % 0x4000 = 0) :
+    Opt.has (h3 + (opp + m)) Opt.REFERENCE_PICTURE_RESAMPLING = false := by
+  have e13 : Opt.REFERENCE_PICTURE_RESAMPLING = 2 ^ 13 := by simp [Opt.REFERENCE_PICTURE_RESAMPLING]
+  rw [e13, has_pow]
+  simp only [decide_eq_false_iff_not]
+  omega
+
 end H263V.Lemmas.PlusRoundTrip
